@@ -211,7 +211,9 @@ func (d *deriver) derive(n *Node, depth int, out *[]string) {
 		}
 	case "adj":
 		d.derive(n.Kids[0], depth+1, out)
-		*out = append(*out, glue)
+		if d.r.Chance(70) { // otherwise the two sides are (probably) separated by a blank
+			*out = append(*out, glue)
+		}
 		d.derive(n.Kids[1], depth+1, out)
 	case "ref":
 		if depth < 8 {
